@@ -453,7 +453,7 @@ func runC04(c *Ctx) {
 				pre.SP = []uint16{0, 1, 2, 0xffff, 0xfffe}[r.Intn(5)]
 			}
 			mem.Reset()
-			kind := r.Intn(7)
+			kind := r.Intn(8)
 			dist := func(a, b uint16) uint16 { // circular distance
 				d := a - b
 				if d > 0x8000 {
@@ -461,7 +461,49 @@ func runC04(c *Ctx) {
 				}
 				return d
 			}
-			if kind == 0 {
+			if kind == 7 {
+				// CALL nn ; <the stack slot changes> ; RET  — RET must read the word that is
+				// at (SP) now, whatever wrote it: a store through HL, EX (SP),HL, or the host
+				// editing memory between two Steps
+				nn := Ptr16(r, pre.PC)
+				if dist(nn, pre.SP) < 8 || dist(nn, pre.PC) < 8 || dist(pre.SP, pre.PC) < 8 {
+					continue
+				}
+				how := r.Intn(4)
+				mem.Place(pre.PC, 0xcd, uint8(nn), uint8(nn>>8))
+				cpu := z80.CPU{States: pre, Memory: mem}
+				cpu.Step()
+				slot := cpu.SP
+				switch how {
+				case 0: // host edits the slot
+					mem.Place(slot, r.U8(), r.U8())
+					mem.Place(nn, 0xc9)
+				case 1: // LD (HL),n on the low byte
+					cpu.HL.SetU16(slot)
+					mem.Place(nn, 0x36, r.U8(), 0xc9)
+					cpu.Step()
+				case 2: // EX (SP),HL
+					cpu.HL.SetU16(r.U16())
+					mem.Place(nn, 0xe3, 0xc9)
+					cpu.Step()
+				case 3: // INC (HL) on the high byte
+					cpu.HL.SetU16(slot + 1)
+					mem.Place(nn, 0x34, 0xc9)
+					cpu.Step()
+				}
+				want := uint16(mem.Data[slot]) | uint16(mem.Data[slot+1])<<8
+				if mem.Data[cpu.PC] != 0xc9 {
+					continue // the edit hit the code itself
+				}
+				cpu.Step()
+				ll++
+				if cpu.PC != want || cpu.SP != pre.SP {
+					c.R.Violation(fmt.Sprintf("C04/law/CALL-edit-RET/%d", how), map[string]interface{}{
+						"what": "RET did not return to the word stored at (SP)", "pre": DumpState(&pre, false), "nn": h16(nn),
+						"slot_edit":  []string{"host edits memory", "LD (HL),n", "EX (SP),HL", "INC (HL)"}[how],
+						"word_at_SP": h16(want), "after_ret": DumpState(&cpu.States, cpu.HALT)})
+				}
+			} else if kind == 0 {
 				// CALL nn ; RET
 				nn := Ptr16(r, pre.PC)
 				// the pushed bytes must not land on the RET opcode or on the CALL's own successor logic
@@ -558,6 +600,6 @@ func runC04(c *Ctx) {
 	c.R.Set("instructions", int64(len(ops)))
 	c.R.Set("exhaustive", false)
 	c.R.Set("exhaustive_over", "all 256 F for each of the 28 conditional opcodes, all 256 B for DJNZ, all 256 offsets for JR/JR cc/DJNZ; data sampled")
-	c.R.Set("rule", "every conditional opcode (8 JP cc, 8 CALL cc, 8 RET cc, 4 JR cc) x all 256 F, DJNZ x all 256 B, relative jumps x all 256 offsets, the unconditional JP/JR/CALL/RET/8 RST/JP (HL)/(IX)/(IY)/RETI/RETN, each x k boundary-biased samples of PC, SP, target and stack contents (PC at FFFD..FFFF, SP in {0,1,2,FFFE,FFFF}, SP within -2..+5 of PC so that pushed bytes overlap the instruction, targets 0000/FFFF); closed-form specification (condition table, address arithmetic mod 65536, push/pop layout) gives the whole expected States, the exact stack writes and the permitted data reads; two-Step laws CALL;RET and PUSH qq;POP qq for BC DE HL AF IX IY. Distinct = distinct (opcode, F or B, taken, PC, SP, operand) hashes (sampled 1/3: lower bound); all cases are non-trivial (each moves PC)")
+	c.R.Set("rule", "every conditional opcode (8 JP cc, 8 CALL cc, 8 RET cc, 4 JR cc) x all 256 F, DJNZ x all 256 B, relative jumps x all 256 offsets, the unconditional JP/JR/CALL/RET/8 RST/JP (HL)/(IX)/(IY)/RETI/RETN, each x k boundary-biased samples of PC, SP, target and stack contents (PC at FFFD..FFFF, SP in {0,1,2,FFFE,FFFF}, SP within -2..+5 of PC so that pushed bytes overlap the instruction, targets 0000/FFFF); closed-form specification (condition table, address arithmetic mod 65536, push/pop layout) gives the whole expected States, the exact stack writes and the permitted data reads; two-Step laws CALL;RET and PUSH qq;POP qq for BC DE HL AF IX IY, and CALL ; <stack slot changed by the host, LD (HL),n, EX (SP),HL or INC (HL)> ; RET on one CPU object. Distinct = distinct (opcode, F or B, taken, PC, SP, operand) hashes (sampled 1/3: lower bound); all cases are non-trivial (each moves PC)")
 	c.R.Assume("RETI leaving IFF1 unchanged or copying IFF2 are both accepted (DESIGN 2.3)")
 }
